@@ -330,6 +330,79 @@ func TestC01(t *testing.T) {
 			}
 		}
 		settle()
+		// losing a node: the survivors must still serve every endpoint that a
+		// reachable node has an upstream for (and must not be put off by the lost
+		// node still being listed, flagged, in their tables)
+		if N >= 2 && c.Chance("loseANode", 1, 2) {
+			victim := cl.Nodes[c.Pick("victim", N)]
+			manner := c.OneOf("manner", "kill", "shutdown")
+			c.Stepf("lose %s by %s", victim.ID, manner)
+			for _, u := range w.ups {
+				if u.Node == victim && u.DisconnectEnd.IsZero() {
+					u.MarkGone()
+					u.DisconnectEnd = time.Now().Add(time.Hour) // may still serve until the node is gone
+				}
+			}
+			victim.Up = false
+			if manner == "kill" {
+				victim.Srv.VerifKill()
+			} else {
+				victim.Srv.Shutdown()
+			}
+			for _, u := range w.ups {
+				if u.Node == victim {
+					u.DisconnectEnd = time.Now()
+				}
+			}
+			var survivors []*TNode
+			for _, n := range cl.Nodes {
+				if n != victim {
+					survivors = append(survivors, n)
+				}
+			}
+			flagged := func() bool {
+				for _, s := range survivors {
+					if n, ok := s.Srv.ClusterState().Node(victim.ID); ok && n.Status == "active" {
+						return false
+					}
+				}
+				return true
+			}
+			if !Eventually(Deadline(), flagged) && !Eventually(2*Deadline(), flagged) {
+				c.Fatalf("C01: survivors still consider the lost node %s active after %v", victim.ID, 3*Deadline())
+			}
+			total := map[string]int{}
+			for _, u := range w.ups {
+				if u.Node != victim && u.DisconnectEnd.IsZero() {
+					total[u.Endpoint]++
+				}
+			}
+			deadHolder := false
+			for _, u := range w.ups {
+				if u.Node == victim && total[u.Endpoint] > 0 {
+					deadHolder = true
+				}
+			}
+			if deadHolder {
+				c.Class("lost-node-held-an-endpoint-that-a-survivor-also-has")
+				c.NonTrivial()
+			}
+			for round := 0; round < 3; round++ { // map order decides which holder a lookup meets first
+				for _, entry := range survivors {
+					for _, e := range append(append([]string{}, httpEps...), tcpEps...) {
+						expect := total[e] > 0
+						mode := "host"
+						if e[0] == 't' {
+							mode = "tcp"
+						}
+						if msg, _ := w.issue(reqSpec{Entry: entry.Idx, Endpoint: e, Mode: mode}, true, &expect); msg != "" {
+							c.Fatalf("C01 (after losing %s by %s; survivors' upstreams %v): %s", victim.ID, manner, total, msg)
+						}
+					}
+				}
+			}
+			c.Class("node-loss-sweeps")
+		}
 		for _, u := range w.ups {
 			if e := u.AcceptErr.Load(); e != nil {
 				c.Class("upstream-accept-error")
